@@ -130,12 +130,26 @@ def opt_case(draw, tier):
                                         max_size=5, unique=True))
         elif kind == "str":
             options[nm] = draw(st.lists(
-                st.one_of(ident, st.sampled_from(["u", "uu", "a1", "a11"])),
+                st.one_of(ident, st.sampled_from(["u", "uu", "a1", "a11"]),
+                          # values that run into each other when joined
+                          st.sampled_from(["gr4j", "gr4j_snow", "snow_v2",
+                                           "v2", "a", "a_b", "b_c", "c",
+                                           "x_", "_y", "x", "y", "1", "1_2",
+                                           "2"])),
                 min_size=1, max_size=5, unique=True))
         elif kind == "bare-int":
             options[nm] = draw(st.integers(-20, 120))
         else:
             options[nm] = draw(ident)
+    # two neighbouring options whose values run into each other when joined
+    # with an underscore: (X, P_Y) and (X_P, Y) are different combinations
+    if nopt >= 2 and draw(st.integers(0, 4)) == 0:
+        tok = st.sampled_from(["a", "b", "gr4j", "snow", "v2", "x1", "7"])
+        X, P_, Y = draw(tok), draw(tok), draw(tok)
+        options[names[0]] = [X, f"{X}_{P_}"]
+        options[names[1]] = [f"{P_}_{Y}", Y]
+        if draw(st.booleans()):
+            options[names[1]].append(draw(tok) + "q")
     nctx = draw(st.integers(0, 3))
     ckeys = draw(st.lists(ident.filter(lambda k: k not in names
                                        and k not in RESERVED),
